@@ -104,6 +104,24 @@ def step (s : Unit) (op : List String) (impl : Option (List String)) : Unit × S
         | some _ => "FAIL:parse"
       (s, out, verdict)
     | none => (s, "bad-op", "-")
+  | ["dbl.rt", hd, _prec] =>
+    -- not modelled (ostream formatting): the expected answer is the input itself; the verdict reads
+    -- the text the implementation produced: it must be in the grammar, denote a value whose
+    -- nearest double is the input, and parse back to the input
+    let verdict := match impl with
+      | none => "-"
+      | some [back, htxt] =>
+        match unhex htxt with
+        | none => "FAIL:parse"
+        | some txt =>
+          match Number.parseDecimal '.' 'e' txt with
+          | none => "FAIL:double_format_in_grammar"
+          | some p =>
+            if back != hd then "FAIL:double_roundtrip"
+            else if !nearestDouble hd p.value then "FAIL:double_format_value"
+            else "ok"
+      | some _ => "FAIL:double_roundtrip"
+    (s, hd, verdict)
   | ["glob", hp, hn] =>
     match unhex hp, unhex hn with
     | some pat, some name =>
